@@ -105,4 +105,11 @@ theorem C03_flag_is_monotone {s s' : State} {t : Nat} {l : Label} (h : sys.Reach
       | some s2 => rw [he] at hs; cases hs; exact (ext_exec he).go z hz hgo
   · cases hs
 
+/-- a reachable quiescent state with a live composite that is true because its first operand is -/
+example : ∃ s, sys.Reach s ∧ s.nOr = 1 ∧ (s.ors 0).target = 4 ∧ (s.ors 0).deps0 = [2, 3] ∧ (s.sigs 4).alive = true
+    ∧ (s.sigs 4).direct = false ∧ (s.sigs 2).go = true ∧ (s.sigs 3).go = false ∧ (s.sigs 4).go = true
+    ∧ s.todo 0 = [] ∧ s.todo 1 = [] :=
+  ⟨demoO4.getD init, demoO_reach.2, by decide +kernel, by decide +kernel, by decide +kernel, by decide +kernel, by decide +kernel,
+    by decide +kernel, by decide +kernel, by decide +kernel, by decide +kernel, by decide +kernel⟩
+
 end MoThreads.Composite
